@@ -162,6 +162,12 @@ type flowSpec struct {
 	// edge is called for each feasible branch edge.
 	edge func(v *flowVisit, iff *ssa.If, taken bool) (st string, stop bool)
 
+	// Deferred collects the function literals deferred on explored paths, and the same-package
+	// helpers that were not inlined because the depth bound was reached. The engine does not look
+	// into them; a rule whose events could occur there asks DeferredMatch (which also follows
+	// their static callees) and answers Undecided if so.
+	Deferred map[*ssa.Function]bool
+
 	frames   map[string]*sframe
 	nframes  int
 	facts    []pfact
@@ -387,11 +393,61 @@ func (s *flowSpec) run(start *fnode) {
 				next(callee.Blocks[0], 0, fr, st, facts, joinNote(v.note, fmt.Sprintf("%s: enter %s", s.p.InstrPos(x), FuncName(callee))))
 				continue
 			}
+			s.noteSkipped(n.fr, x)
+			next(n.b, n.i+1, n.fr, st, facts, v.note)
+		case *ssa.Defer:
+			var k *ssa.Function
+			switch f := x.Call.Value.(type) {
+			case *ssa.MakeClosure:
+				k, _ = f.Fn.(*ssa.Function)
+			case *ssa.Function:
+				k = f
+			}
+			if k != nil && len(k.Blocks) > 0 {
+				if s.Deferred == nil {
+					s.Deferred = map[*ssa.Function]bool{}
+				}
+				s.Deferred[k] = true
+			}
 			next(n.b, n.i+1, n.fr, st, facts, v.note)
 		default:
 			next(n.b, n.i+1, n.fr, st, facts, v.note)
 		}
 	}
+}
+
+// DeferredMatch returns an instruction that satisfies match in a function the engine did not
+// look into (deferred function literals, helpers beyond the depth bound) or in a same-package
+// function statically called from one.
+func (s *flowSpec) DeferredMatch(match func(in ssa.Instruction) bool) ssa.Instruction {
+	var fns []*ssa.Function
+	for k := range s.Deferred {
+		fns = append(fns, k)
+	}
+	sort.Slice(fns, func(i, j int) bool { return FuncName(fns[i]) < FuncName(fns[j]) })
+	seen := map[*ssa.Function]bool{}
+	for len(fns) > 0 {
+		k := fns[0]
+		fns = fns[1:]
+		if seen[k] || len(seen) > 200 {
+			continue
+		}
+		seen[k] = true
+		for _, b := range k.Blocks {
+			for _, in := range b.Instrs {
+				if match(in) {
+					return in
+				}
+				if c, ok := in.(ssa.CallInstruction); ok {
+					if callee := c.Common().StaticCallee(); callee != nil && s.p.InScope[callee] && len(callee.Blocks) > 0 &&
+						EnclosingDeclared(callee).Pkg == EnclosingDeclared(s.root).Pkg && !s.noInline[calleeName(c.Common())] {
+						fns = append(fns, callee)
+					}
+				}
+			}
+		}
+	}
+	return nil
 }
 
 func joinNote(a, b string) string {
@@ -426,6 +482,24 @@ func (s *flowSpec) inlinable(fr *sframe, call *ssa.Call) *ssa.Function {
 		}
 	}
 	return callee
+}
+
+// noteSkipped records a same-package helper the depth bound kept the engine out of.
+func (s *flowSpec) noteSkipped(fr *sframe, call *ssa.Call) {
+	callee := call.Common().StaticCallee()
+	if callee == nil || !s.p.InScope[callee] || len(callee.Blocks) == 0 || fr.depth < s.maxDepth {
+		return
+	}
+	if a, b := EnclosingDeclared(callee), EnclosingDeclared(s.root); a.Pkg != b.Pkg {
+		return
+	}
+	if s.noInline[calleeName(call.Common())] || (s.inlineVeto != nil && s.inlineVeto(fr, call)) {
+		return
+	}
+	if s.Deferred == nil {
+		s.Deferred = map[*ssa.Function]bool{}
+	}
+	s.Deferred[callee] = true
 }
 
 // edgeFacts returns the facts after taking the edge, or false if the edge contradicts them.
@@ -712,6 +786,9 @@ func resolveIn(fr *sframe, v ssa.Value) (*sframe, ssa.Value) {
 				return fr, v
 			}
 			sv := singleStore(al)
+			if sv == nil && cell == x.X {
+				sv = lastStoreBefore(x, al)
+			}
 			if sv == nil {
 				return fr, v
 			}
@@ -721,6 +798,92 @@ func resolveIn(fr *sframe, v ssa.Value) (*sframe, ssa.Value) {
 		}
 	}
 	return fr, v
+}
+
+// lastStoreBefore returns the value most recently stored to the local al before the load, when
+// that is decidable on straight-line code: walking back from the load through single-predecessor
+// blocks, the first store to al found. A local captured by a closure is given up on as soon as a
+// call intervenes (the callee could assign it).
+func lastStoreBefore(load *ssa.UnOp, al *ssa.Alloc) ssa.Value {
+	captured := false
+	for _, r := range *al.Referrers() {
+		switch r.(type) {
+		case *ssa.Store, *ssa.UnOp, *ssa.DebugRef:
+		default:
+			captured = true
+		}
+	}
+	b := load.Block()
+	start := -1
+	for i, in := range b.Instrs {
+		if in == ssa.Instruction(load) {
+			start = i
+		}
+	}
+	for hops := 0; hops < 6 && b != nil; hops++ {
+		if start < 0 {
+			start = len(b.Instrs)
+		}
+		for i := start - 1; i >= 0; i-- {
+			switch x := b.Instrs[i].(type) {
+			case *ssa.Store:
+				if x.Addr == ssa.Value(al) {
+					return x.Val
+				}
+			case ssa.CallInstruction, *ssa.RunDefers:
+				if captured {
+					return nil
+				}
+			}
+		}
+		if len(b.Preds) != 1 {
+			return nil
+		}
+		b = b.Preds[0]
+		start = -1
+	}
+	return nil
+}
+
+// errMerged reports whether the error result of call flows into a phi or into a local with
+// several stores whose loads the analysis cannot attribute: then "the error is not known to be
+// nil" may be the analysis' ignorance rather than a fact about the code, and rules answer
+// Undecided instead of Violated.
+func errMerged(call *ssa.Call) bool {
+	if call == nil {
+		return false
+	}
+	var ev ssa.Value = call
+	res := call.Common().Signature().Results()
+	if res.Len() > 1 {
+		ev = nil
+		if refs := call.Referrers(); refs != nil {
+			for _, r := range *refs {
+				if ex, ok := r.(*ssa.Extract); ok && ex.Index == res.Len()-1 {
+					ev = ex
+				}
+			}
+		}
+	}
+	if ev == nil || ev.Referrers() == nil {
+		return false
+	}
+	for _, r := range *ev.Referrers() {
+		switch x := r.(type) {
+		case *ssa.Phi:
+			return true
+		case *ssa.Store:
+			if al, ok := x.Addr.(*ssa.Alloc); ok && x.Val == ev && singleStore(al) == nil {
+				// loads that lastStoreBefore cannot attribute
+				for _, rr := range *al.Referrers() {
+					if ld, ok := rr.(*ssa.UnOp); ok && ld.Op == token.MUL && lastStoreBefore(ld, al) == nil {
+						return true
+					}
+				}
+			}
+		}
+	}
+	return false
 }
 
 // resolve is resolveIn without the frame result.
